@@ -37,7 +37,14 @@ def build(repo, findings):
     f.resub(r"\b(\w+)(?:\s*\.pieces)?\s*\.iter\(\)\s*\.any\(\|piece\| piece\.as_str\(\)\.starts_with\('(.)'\)\)", r"pieces_any_starts_with(\1, '\2')", 'R14', 'pieces.iter().any(starts_with) -> stub', count=None)
     f.resub(r"\b(\w+)(?:\s*\.pieces)?\s*\.first\(\)\s*\.is_some_and\(\|piece\| piece\.as_str\(\)\.starts_with\('(.)'\)\)", r"pieces_first_starts_with(&\1.pieces, '\2')", 'R14', 'pieces.first().is_some_and(starts_with) -> stub', count=None)
     f.resub(r'matching_paths_in_dir\.sort\(\);', 'sort_paths(&mut matching_paths_in_dir);', 'R14', 'Vec::sort -> stub', count=None)
-    f.resub(r'\b(\w+)\.sort(?:_unstable)?_by(?:_key)?\((?:[^;]|\n)*?\);', r'reorder_paths_somehow(&mut *\1);' if False else r'reorder_paths_somehow(\1);', 'R14', 'sort with a caller-supplied ordering -> some reordering (left open)', count=None)
+    f.resub(r'\b(\w+)\.sort_unstable\(\);', r'sort_paths(&mut \1);', 'R14', 'Vec::sort_unstable -> stub (same order as sort for distinct paths)', count=None)
+    f.resub(r'\b(\w+)\.sort(?:_unstable)?_by\(\|(\w+), (\w+)\| \2\.cmp\(&?\3\)\);', r'sort_paths(&mut \1);', 'R14', 'sort_by with the natural ordering -> stub', count=None)
+    n_open = len(re.findall(r'\b\w+\.sort(?:_unstable)?_by(?:_key)?\(', f.text))
+    f.resub(r'\b(\w+)\.sort(?:_unstable)?_by(?:_key)?\((?:[^;]|\n)*?\);', r'reorder_paths_somehow(\1);', 'R14', 'sort with a caller-supplied ordering this unit does not read -> some reordering (left open)', count=None)
+    if n_open:
+        # an ordering the unit cannot read may well be the right one: a failed obligation then counts only with a replayed failing input
+        u.violation_needs_replay = True
+        u.notes.append('walk_components: %d sort(s) with a caller-supplied ordering left open' % n_open)
     f.resub(r'paths_so_far\.append\(&mut matching_paths_in_dir\);', 'append_paths(paths_so_far, &mut matching_paths_in_dir);', 'R14', 'Vec::append -> stub', count=None)
     f.resub(r'^([ \t]*)(\w+) \|= (.*?);$', r'\1\2 = { let __t = \3; \2 || __t };', 'R10', '`a |= e` on bools spelled out (e is still evaluated)', flags=re.M | re.S, count=None)
     f.resub(r'\n\}$', '\n    Ok(())\n}', 'R6', 'wrapper epilogue `Ok(())`', count=1)
@@ -64,4 +71,9 @@ def build(repo, findings):
     u.assume('axiom', 'str::starts_with(char) / ends_with(char) look at the first / last character')
     u.assume('stub', 'what a listing returns (regex match per entry, the filters themselves) is NOT verified here; that per-directory sorting of full paths gives bash\'s overall order is an argument (directories are visited in sorted order), not a proof')
     u.expected_min_fns = 1
+    from .common import replay_scripts
+    u.counterexample = replay_scripts(repo, [
+        ('d=$(mktemp -d); cd "$d"; mkdir a b; : > a/y.txt; : > a/z.txt; : > b/a.txt; : > b/x.txt; echo */*.txt; echo ?/[a-z].*; cd /; rm -rf "$d"', 'a/y.txt a/z.txt b/a.txt b/x.txt\na/y.txt a/z.txt b/a.txt b/x.txt\n'),
+        ('d=$(mktemp -d); cd "$d"; : > b; : > a; : > .h; : > c; echo *; cd /; rm -rf "$d"', 'a b c\n'),
+    ])
     return u
